@@ -32,6 +32,7 @@ pub(crate) static mut SCRIPT_MISBEHAVE: bool = false;
 /// the fixed file
 pub(crate) static mut USE_SYM_CONTENT: bool = false;
 pub(crate) static mut SYM_CONTENT: [u8; 32] = [0; 32];
+pub(crate) static mut FIRST_POLLED: (u64, u64, u32, u64) = (0, 0, 0, 0);
 pub(crate) fn scripted_poll(r: &mut HttpRangeRequest) -> Option<Poll<Option<Result<Bytes, HttpReaderError>>>> {
     if !unsafe { SCRIPTED } {
         return None;
@@ -40,6 +41,10 @@ pub(crate) fn scripted_poll(r: &mut HttpRangeRequest) -> Option<Poll<Option<Resu
     let a = if k < 4 { unsafe { SCRIPT[k] } } else { 9 };
     unsafe {
         SCRIPT_POS = k + 1;
+        if k == 0 {
+            // what the first polled request looks like (harnesses that cannot reach into an opaque stream)
+            FIRST_POLLED = peek(r);
+        }
     }
     Some(match a {
         0 => Poll::Ready(None),
@@ -416,4 +421,33 @@ fn c15_server_misbehaves_range_request() {
 #[kani::unwind(6)]
 fn c15_server_sends_too_much() {
     server_misbehaves(6);
+}
+
+
+/// C15: whatever a server DECLARES about its reply (Content-Length: any value or none) the one-shot read used for the
+/// header region (`single`, behind `HttpReader::read_at`) ends in a result -- no panic, no allocation sized by the
+/// declaration.  (The unchanged code never looks at the declared length; a change that pre-sizes a buffer from it
+/// is stopped here by the capacity check of the allocation.)
+#[kani::proof]
+#[kani::unwind(6)]
+fn c15_single_declared_length_any() {
+    let offset: u64 = kani::any();
+    let size: u64 = kani::any();
+    kani::assume(offset < 16 && size >= 1 && size <= 5);
+    any_reply(0, 6);
+    unsafe {
+        reqwest::CONTENT_LENGTH = kani::any();
+    }
+    let req = HttpRangeRequest::new(builder(), offset, size);
+    let mut cx = noop_cx();
+    let fut = req.single();
+    tokio::pin!(fut);
+    match fut.as_mut().poll(&mut cx) {
+        Poll::Ready(r) => {
+            kani::cover!(r.is_ok() && unsafe { reqwest::CONTENT_LENGTH } == Some(u64::MAX));
+            kani::cover!(r.is_err());
+            std::mem::forget(r);
+        }
+        Poll::Pending => assert!(false, "single() pending with a ready server"),
+    }
 }
